@@ -115,3 +115,71 @@ func (c *Ctx) localizeFallback(rule string) {
 	}
 	_ = nLoc
 }
+
+// verdictNotAnError: in the login handlers, the error a credential checker
+// returns IS the verdict "wrong credential". A handler that hands it back as
+// its own error answers some wrong passwords (those the hasher rejects for
+// another reason than a mismatch: a malformed, empty or foreign hash — the
+// accounts the OAuth2 module creates have an empty one) with a server error,
+// while an unknown account gets the ordinary "invalid credentials" page.
+func (c *Ctx) verdictNotAnError(rule string) {
+	r := c.R
+	n := 0
+	for _, hn := range []string{"(*ab/auth.Auth).LoginPost", "(*ab/otp.OTP).LoginPost"} {
+		fn := c.P.FuncOpt(hn)
+		if fn == nil {
+			continue
+		}
+		for _, b := range fn.Blocks {
+			if len(b.Instrs) == 0 {
+				continue
+			}
+			ifi, ok := b.Instrs[len(b.Instrs)-1].(*ssa.If)
+			if !ok {
+				continue
+			}
+			for _, pol := range []bool{true, false} {
+				cs := c.credOf(ifi.Cond, pol, 0)
+				if len(cs) == 0 || !c.isAuthDecisionCred(cs) {
+					continue
+				}
+				var verdicts []ssa.Value
+				for _, cr := range flatten(cs) {
+					if cr.Check != nil {
+						if ve := ErrResult(cr.Check); ve != nil {
+							verdicts = append(verdicts, ve)
+						}
+					}
+				}
+				if len(verdicts) == 0 {
+					continue
+				}
+				n++
+				failSucc := b.Succs[1]
+				if !pol {
+					failSucc = b.Succs[0]
+				}
+				q := PathQuery{StartBlock: failSucc, StartPred: b, Goal: func(i ssa.Instruction) bool {
+					ret, ok := i.(*ssa.Return)
+					if !ok || len(ret.Results) == 0 {
+						return false
+					}
+					for _, ve := range verdicts {
+						if carriesErr(ve, ret.Results[len(ret.Results)-1], 0) {
+							return true
+						}
+					}
+					return false
+				}}
+				if p := q.Find(); p != nil {
+					r.Bad(rule, FuncName(fn), "verdict of "+credKinds(cs)+" returned as an error", posf(c, ifi), "a rejected credential can leave the handler as a server error (the checker's own error is returned) instead of the invalid-credentials answer an unknown account gets", c.P.DescribePath(p)...)
+				} else {
+					r.Ok(rule, FuncName(fn), "verdict of "+credKinds(cs)+" returned as an error", posf(c, ifi), "every rejection is answered as invalid credentials")
+				}
+			}
+		}
+	}
+	if n == 0 {
+		r.Unknown(rule, "", "decisions", "-", "no error-valued credential decision found in the login handlers")
+	}
+}
